@@ -283,8 +283,39 @@ def _infer_text_dtypes(df):
         isfloat = s_or(*flags)
         if out is None:
             out = df.copy()
-        out._c[c] = [SNum(x.z, x.rng, isfloat) for x in cells]
+        if getattr(df, "_txt_values", False) or any(getattr(x, "txt_values", False) for x in cells):
+            # the harness asked for the VALUE dtype to follow the inference too: an all-integer chunk comes back as
+            # int64 (z3 Int), any other as float64 (z3 Real). Decided here (the path forks).
+            import z3
+            if isfloat if isinstance(isfloat, bool) else bool(isfloat):
+                out._c[c] = [_mark(SNum(z3.ToReal(x.z) if z3.is_int(x.z) else x.z, None, True)) for x in cells]
+                out._dt[c] = symnp.float64
+            else:
+                out._c[c] = [_mark(SNum(x.z if z3.is_int(x.z) else z3.ToInt(x.z), None, False)) for x in cells]
+                out._dt[c] = symnp.int64
+        else:
+            out._c[c] = [SNum(x.z, x.rng, isfloat) for x in cells]
     return df if out is None else out
+
+
+def _mark(x):
+    return _TxtNum(x.z, x.rng, x.txt)
+
+
+def text_number(z, dec, ctx):
+    """a numeric cell of a text file: value z (Real), spelt with a decimal point iff `dec`; without one the value is
+    integral. Its dtype after pandas.read_csv follows the chunk it is parsed in (see _infer_text_dtypes)."""
+    import z3
+    from .core import SNum, SBool
+    ctx.assume(z3.Implies(z3.Not(dec), z3.IsInt(z)))
+    c = _TxtNum(z, None, SBool(dec))
+    return c
+
+
+class _TxtNum(core.SNum):
+    """SNum that asks the CSV model to let its VALUE dtype (int64 / float64) follow the chunk it is read in"""
+    __slots__ = ()
+    txt_values = True
 
 
 def _df_to_csv(self, path, sep="\t", index=False, mode="w", header=True, **kw):
